@@ -58,6 +58,7 @@ import Ufw.Tie.EndpFns.EndToEnd
 #print axioms Ufw.Tie.EndpFns.ofNat_toInt
 #print axioms Ufw.Tie.EndpFns.put_loop
 #print axioms Ufw.Tie.EndpFns.gen_sink_put_chunk
+#print axioms Ufw.Tie.EndpFns.gen_sink_put_chunk_atmost
 #print axioms Ufw.Tie.EndpFns.src_chunk_call
 #print axioms Ufw.Tie.EndpFns.src_call_facts
 #print axioms Ufw.Tie.EndpFns.source_adapt_facts
@@ -65,6 +66,7 @@ import Ufw.Tie.EndpFns.EndToEnd
 #print axioms Ufw.Tie.EndpFns.gen_once_source_get_chunk
 #print axioms Ufw.Tie.EndpFns.get_loop
 #print axioms Ufw.Tie.EndpFns.gen_source_get_chunk
+#print axioms Ufw.Tie.EndpFns.gen_source_get_chunk_atmost
 #print axioms Ufw.Tie.EndpFns.tr_sx32
 #print axioms Ufw.Tie.EndpFns.tr_ofNat
 #print axioms Ufw.Tie.EndpFns.tr_rc64
